@@ -60,7 +60,8 @@ func isExprAssigned(s string) bool {
 	//   if: ${{ env.foo == '{"foo": {"bar": true}}' }}
 	return strings.HasPrefix(v, "${{") &&
 		strings.HasSuffix(v, "}}") &&
-		strings.Count(v, "${{") == 1
+		strings.Count(v, "${{") == 1 &&
+		indexOfPlaceholderEnd(v) == len(v)-len("}}") // The placeholder must end at the end: `${{ 1 }} }}` is a text
 }
 
 // IsExpressionAssigned returns whether a single expression is assigned to the string.
